@@ -315,7 +315,7 @@ def unmarshalInto (urlNorm : Bytes → Dec Bytes) (c0 : Claims) (t : Cbor) : Dec
 /-- the selector struct `{Profile string "265,keyasint"}`: null leaves "" -/
 def setSelector (_ : Bytes) (_ : Int) (v : Cbor) : Dec Bytes :=
   match v with
-  | .tstr s => if validUTF8 s then .ok s else .err
+  | .tstr s => if validUTF8 s && !s.isEmpty then .ok s else .err   -- an explicitly empty profile is unknown (fix 5875131)
   | .simple 22 => .ok []
   | .simple 23 => .ok []
   | .tag _ _ => .ood
